@@ -75,7 +75,7 @@ func (e *EventSubscription) addSubscriber(sub Subscriber, t *Throttle) {
 		if rs.state != stateError {
 			rs.subs[sub] = struct{}{}
 		}
-		verifNote("cacheAddSub", "name", e.ResourceName, "query", q, "state", int(rs.state), "subs", len(rs.subs), "cid", sub.CID())
+		verifNote("cacheAddSub", "name", e.ResourceName, "query", rs.query, "state", int(rs.state), "subs", len(rs.subs), "cid", sub.CID())
 
 		switch rs.state {
 		// A subscription is made, but no request for the data.
